@@ -112,7 +112,21 @@ def proc_key(o):
     return None
 
 
-PRE_PROC = PRE + "Definition check := proc_check.\nDefinition prop := proc_prop.\n"
+KEY_CORNER = "C05:one-base-alignment-on-bin-boundary"
+
+
+def detect_repaired():
+    """which split_coverage_regions is checked out?  Run the real function on a region that starts exactly on a bin boundary and
+       is split (3 bins, scaled constants): before fixes/C05_first_subregion_start.diff the first sub-region starts at
+       256 * first_bin + 1 (-> models / specifications `..._prev`, the one-base corner is the known finding), after it at
+       genomic_region[0] (-> the unsuffixed ones: full coverage required)."""
+    from src import alignment_processor as ap
+    class St:
+        coverage_dict = collections.defaultdict(int, {3: 2, 4: 2, 5: 2})
+        def get_read_count(self): return 4
+    with Consts(SCALED):
+        regs = ap.AlignmentCollector.split_coverage_regions((3 * B, 5 * B + 255), St())
+    return bool(regs) and regs[0][0] == 3 * B
 
 
 def fake_proc_cases(ctx, k, files, modes=(False, True), nbams=1):
@@ -231,6 +245,14 @@ def run(ctx):
     rnd = ctx.rnd
     ctx.prepare("C05.v")
     REAL = real_consts()
+    repaired = detect_repaired()
+    sfx = "" if repaired else "_prev"
+    PRE_PROC = PRE + "Definition check := proc_check%s.\nDefinition prop := proc_prop%s.\n" % (sfx, sfx)
+    ctx.notes.append("split_coverage_regions variant detected on a split region that starts on a bin boundary: %s" %
+                     ("REPAIRED (first sub-region starts at genomic_region[0]) -> split_check / split_prop / proc_check / proc_prop: tiling from r0, every record handed out" if repaired else
+                      "UNREPAIRED (first sub-region starts at 256 * first_bin + 1) -> split_check_prev / split_prop_prev / proc_check_prev / proc_prop_prev: the one-base corner is exempted and reported as the known finding"))
+    ctx.rule("the variant of split_coverage_regions is detected by running the real function on a split region that starts on a bin boundary; the matching model (split_regions / split_regions_prev) and "
+             "specification (chain from r0, every record handed out / chain from max(bin start + 1, r0), one-base corner exempted) are used")
 
     # ---- 0. constants: class attributes = gen/Tables.v = instantiation of the theorems; float valley test = integer test
     mism, viol = ctx.corr("constants", PRE + "Definition check (c:consts) := consts_eqb c iq_consts.\nDefinition prop (c:consts) := (0 <? cBIN c).\n",
@@ -246,7 +268,7 @@ def run(ctx):
     ctx.rule("valley test: `cov > max(ABS, max_cov * REL)` in floats = integer form used by the model, for max_cov in 0..3000, every multiple of 100 up to 3e6 (3e7 thorough) and coverage around max_cov/100")
 
     # ---- 1. split_coverage_regions on every coverage profile (scaled constants), fake storage with an explicit coverage_dict
-    PRE_SPLIT = PRE + "Definition check := split_check.\nDefinition prop := split_prop.\n"
+    PRE_SPLIT = PRE + "Definition check := split_check%s.\nDefinition prop := split_prop%s.\n" % (sfx, sfx)
     class FakeStorage:
         def __init__(self, cov, count): self.coverage_dict = collections.defaultdict(int, cov); self.count = count
         def get_read_count(self): return self.count
@@ -336,6 +358,7 @@ def run(ctx):
         sorted([(5000, 38000, i, 0, 0, 60) for i in range(300)] + [(37900, 39000, 1000, 0, 0, 60)] + [(38900, 72000, 2000 + i, 0, 0, 60) for i in range(300)] +
                [(71900, 72440, 3000 + i, 0, 0, 60) for i in range(4)] + [(72300, 72460, 4000, 0, 0, 60), (72450, 72500, 9999, 0, 0, 60)], key=lambda a: (a[0], a[1])),
         sorted([(5120, 5121, 7777, 0, 0, 60)] + [(5120, 38000, i, 0, 0, 60) for i in range(300)] + [(37900, 39000, 1000, 0, 0, 60)] + [(38900, 72000, 2000 + i, 0, 0, 60) for i in range(300)], key=lambda a: (a[0], a[1])),
+        [(5120, 5121, i, 0, 0, 60) for i in range(1100)],          # w_corner_pile: a deep cluster of one-base alignments on a bin boundary
     ]
     files += corpus
     cases = fake_proc_cases(ctx, REAL, files)
@@ -364,14 +387,15 @@ def run(ctx):
              "7 single-bin pile-ups of 1100 reads, the witnesses of Regions.v; %d runs on real BAMs" % (len(files), nreal))
     mism, viol = ctx.corr("process+forward(real constants, pysam)", PRE_PROC, cases, shard=60, nontrivial=lambda o: not isinstance(o["impl_regions"], tuple) and len(o["impl_regions"]) > 1)
     ctx.corr_report("process+forward(real constants, pysam)", mism, viol, keyfn=proc_key)
-    # the one corner proc_prop exempts (theorem C05_no_alignment_lost_*: `~ iq_corner whole a`) is a genuine loss: report it under its own key
+    # the one corner proc_prop_prev exempts (theorems C05_no_alignment_lost_*_prev_partial: `~ iq_corner whole a`) is a genuine loss: report it under its own key
+    # (on the repaired code proc_prop has no exemption: a lost record is a specification violation of the correspondence above)
     for _term, o in cases:
         out = o["impl_regions"]
-        if isinstance(out, tuple): continue
+        if repaired or isinstance(out, tuple): continue
         seen = set(i for _, ids in out for i in ids)
         lost = [a for a in o["alignments(start,end,id,flag,ref,mapq)"] if a[2] not in seen and a[0] % o["constants"][0] == 0 and a[1] == a[0] + 1]
         if lost:
-            ctx.violation("C05:one-base-alignment-on-bin-boundary", "a one-base alignment on the first base of a cluster that starts on a bin boundary is handed to no sub-region",
+            ctx.violation(KEY_CORNER, "a one-base alignment on the first base of a cluster that starts on a bin boundary is handed to no sub-region",
                           {"alignments(start,end,id,flag,ref,mapq)": o["alignments(start,end,id,flag,ref,mapq)"][:6], "lost": lost, "regions": [r for r, _ in out], "high_memory": o["high_memory"]})
             break
     ctx.assume.append("htslib/pysam fetch(chr, lo, hi) returns exactly the records overlapping [lo, hi) in file order (the emulation used for the exhaustive stream is compared with real BAM files on the structured stream)")
